@@ -50,33 +50,34 @@ def template(name, choose, idx, free=True):
         tag = TAGS[choose('tag%d' % idx, len(TAGS))] if name in ('one-chan', 'full', 'two-groups', 'two-chans') else 'int32'
         n = choose('n%d' % idx, 3) if name in ('one-chan', 'full', 'two-chans') else 2
     else:       # in multi-segment programs the array dtype and length are tied to the position (keeps the product small)
-        tag = TAGS[(idx * 7 + len(name)) % len(TAGS)]
+        tag = TAGS[(len(name) * 5 + ord(name[0])) % len(TAGS)]     # a channel keeps its dtype across segments
         n = (idx + len(name)) % 3
     if name == 'one-chan':
-        return [['chan', 'g', 'a', tag, n, [['p', 'symint']]]]
+        return [['chan', 'g', 'a1', tag, n, [['p', 'symint']]]]
     if name == 'full':
         return [['root', [['r', 'symstr:1'], ['i', 'int:5']]], ['group', 'g', [['gp', 'float']]],
-                ['chan', 'g', 'a', tag, n, [['q', 'bool']]], ['chan', 'g', 'b', 'float64', 1, []]]
+                ['chan', 'g', 'a2', tag, n, [['q', 'bool']]], ['chan', 'g', 'b2', 'float64', 1, []]]
     if name == 'two-groups':
-        return [['chan', 'h', 'c', tag, 1, []], ['chan', 'g', 'a', 'int16', 2, [['t', 'dt']]]]
+        return [['chan', 'h', 'c3', tag, 1, []], ['chan', 'g', 'a3', 'int16', 2, [['t', 'dt']]]]
     if name == 'group-only':
         return [['group', "it's", [['s', 'str']]]]
     if name == 'str-chan':
-        return [['chan', 'g', 's', 'symstr', 1 + choose('ns%d' % idx, 2), []], ['chan', 'g', 'a', 'int32', 1, []]]
+        return [['chan', 'g', 's', 'symstr', 1 + choose('ns%d' % idx, 2), []], ['chan', 'g', 'a4', 'int32', 1, []]]
     if name == 'empty':
-        return [['chan', 'g', 'a', ['float64', 'str', 'datetime64', 'int8'][choose('et%d' % idx, 4)], 0, []]]
+        et = choose('et%d' % idx, 4)
+        return [['chan', 'g', 'e%d' % et, ['float64', 'str', 'datetime64', 'int8'][et], 0, []]]
     if name == 'root-only':
         return [['root', [['big', 'symint'], ['w', 'wrap:Uint64']]]]
     if name == 'list-int':
         return [['chan', 'g', 'l', 'list-int', 2, [['w', 'wrap:Int8'], ['np', 'np:uint16']]]]
     if name == 'dt-chan':
-        return [['chan', 'g', 'd', 'datetime64', 2, []], ['chan', 'g', 'a', 'uint8', 3, []]]
+        return [['chan', 'g', 'd', 'datetime64', 2, []], ['chan', 'g', 'a5', 'uint8', 3, []]]
     if name == 'str-props':
-        return [['group', 'g', [['s1', 'symstr:2'], ['s2', 'str']]], ['chan', 'g', 'a', 'str', 2, [['s3', 'symstr:1']]]]
+        return [['group', 'g', [['s1', 'symstr:2'], ['s2', 'str']]], ['chan', 'g', 'a6', 'str', 2, [['s3', 'symstr:1']]]]
     if name == 'chan-then-group':
-        return [['chan', 'g', 'a', 'int32', 1, []], ['group', 'g', [['late', 'int:-2147483649']]], ['root', []]]
+        return [['chan', 'g', 'a7', 'int32', 1, []], ['group', 'g', [['late', 'int:-2147483649']]], ['root', []]]
     if name == 'two-chans':
-        return [['chan', 'g', 'a', tag, n, []], ['chan', 'g', 'b', tag, 2 - min(n, 2), []]]
+        return [['chan', 'g', 'a8', tag, n, []], ['chan', 'g', 'b8', tag, 2 - min(n, 2), []]]
     raise ValueError(name)
 
 
